@@ -79,7 +79,7 @@ Judge(s, e) ==
        \* a call identical to the remembered one MAY reuse: then the reusing stream returns the remembered split and any difference to the
        \* twin is the twin's fresh solve not repeating itself (judged to the solver's resolution o.scale_tol); after any change of
        \* temperature, composition or chemicals nothing may be reused and both streams solve alike
-       ELSE IF [T |-> e.a.T, z |-> e.a.z, cs |-> e.a.cs] = s /\ o.same > o.scale_tol \div 100 THEN "lle.repeated_call_differs_from_fresh_solve"
+       ELSE IF [T |-> e.a.T, z |-> e.a.z, cs |-> e.a.cs] = s /\ o.same > o.scale_tol \div 10 THEN "lle.repeated_call_differs_from_fresh_solve"
        ELSE IF [T |-> e.a.T, z |-> e.a.z, cs |-> e.a.cs] # s /\ o.same > SameTol THEN "lle.reuse_differs_from_fresh_solve"
        \* the Gibbs-minimising methods stop at f_tol = 1e-6 on the Gibbs energy: two runs that differ in the last bits of the
        \* normalised feed agree only to the solver's resolution (o.scale_tol, given per method by the driver)
